@@ -314,7 +314,7 @@ PROPS["C11"] = dict(
     level_text=("A catalogue of about 90 faults - service functions panicking with 13 kinds of values (strings, errors, structs, nil, runtime errors), panicking invoke/IO plugins and "
                 "missing-method handler, wrongly typed, surplus or missing arguments, unencodable results, 21 kinds of undecodable request bytes, messages too large for a datagram, and "
                 "hand-made malformed frames, datagrams, websocket messages and HTTP requests from a peer of their own (short, bad checksum, lying lengths, error flag, a call in flight "
-                "followed by a broken frame) - is run on every transport it applies to (mock, tcp, unix, udp, websocket x2, http, fasthttp; worker pool 0/8) while a gated call of the same "
+                "followed by a broken frame) - is run on every transport it applies to (mock, tcp, unix, udp, websocket x2, http, fasthttp; worker pool 0/8; also behind the ExecuteTimeout and Oneway plugins) while a gated call of the same "
                 "client and one of another client are in flight: the faulty call must fail, the in-flight calls must complete (the same client's only unless the fault may cost its "
                 "connection), calls issued afterwards on both clients must succeed, and the process must survive. rapid draws sequences and bursts of faults per endpoint; small worker pools "
                 "(1, 2) face more dropped raw peers than they have workers. On the client side a scripted peer answers one of two pending calls with 15 kinds of faulty responses."),
